@@ -42,6 +42,33 @@ func Check(v any) error {
 		return errors.New("jsonapi: ID field's api tag is empty")
 	}
 
+	// Check field names
+	//
+	// The json tag is the name of the field. Get and Set find the field with
+	// it and the attributes and relationships are keyed by it.
+	names := map[string]bool{}
+
+	for i := 0; i < value.NumField(); i++ {
+		sf := value.Type().Field(i)
+		apiTag := sf.Tag.Get("api")
+
+		if apiTag != "attr" && strings.Split(apiTag, ",")[0] != "rel" {
+			continue
+		}
+
+		name := sf.Tag.Get("json")
+		if name == "" || name == "id" || names[name] {
+			return fmt.Errorf(
+				"jsonapi: json tag %q of field %q of type %q is empty, reserved or already used",
+				name,
+				sf.Name,
+				resType,
+			)
+		}
+
+		names[name] = true
+	}
+
 	// Check attributes
 	for i := 0; i < value.NumField(); i++ {
 		sf := value.Type().Field(i)
